@@ -207,8 +207,29 @@ pub fn range_value() -> impl Strategy<Value = Bytes> {
         .prop_map(|(u, s, sep)| Bytes(format!("{}{}", u, s.join(sep)).into_bytes()))
 }
 
+/// Header names a client can be expected to send: the registered request headers browsers and proxies use, every client hint the server
+/// advertises in Accept-CH / Critical-CH / Vary (a client that honours the advertisement sends exactly those), and the names of the server's
+/// own response headers (nothing stops a client from sending them). Values: plausible ones and hostile text.
+pub const HEADER_VOCABULARY: [&str; 78] = [
+    "Accept", "Accept-Charset", "Accept-Encoding", "Accept-Language", "Authorization", "Cache-Control", "Connection", "Cookie", "Date", "DNT", "Expect", "Forwarded", "From",
+    "If-Match", "If-Modified-Since", "If-None-Match", "If-Range", "If-Unmodified-Since", "Keep-Alive", "Max-Forwards", "Pragma", "Proxy-Authorization", "Referer", "TE", "Trailer",
+    "Transfer-Encoding", "Upgrade", "Upgrade-Insecure-Requests", "User-Agent", "Via", "X-Forwarded-For", "X-Forwarded-Host", "X-Forwarded-Proto", "X-Requested-With",
+    "Sec-Fetch-Dest", "Sec-Fetch-Mode", "Sec-Fetch-Site", "Sec-Fetch-User", "Content-Encoding", "Content-Disposition", "Content-Range", "Content-Language",
+    // client hints (rws advertises the first twelve)
+    "Sec-CH-UA-Arch", "Sec-CH-UA-Bitness", "Sec-CH-UA-Full-Version-List", "Sec-CH-UA-Model", "Sec-CH-UA-Platform-Version", "Downlink", "ECT", "RTT", "Save-Data", "Device-Memory",
+    "Sec-CH-Prefers-Reduced-Motion", "Sec-CH-Prefers-Color-Scheme", "Sec-CH-UA", "Sec-CH-UA-Mobile", "Sec-CH-UA-Platform", "DPR", "Width", "Viewport-Width",
+    // response-side names sent by a client
+    "Accept-CH", "Critical-CH", "Vary", "Accept-Ranges", "X-Content-Type-Options", "X-Frame-Options", "Access-Control-Allow-Origin", "Access-Control-Allow-Credentials",
+    "Access-Control-Allow-Methods", "Access-Control-Allow-Headers", "Access-Control-Expose-Headers", "Access-Control-Max-Age", "Last-Modified-Unix-Epoch-Nanos", "Date-Unix-Epoch-Nanos",
+    "Server", "Location", "ETag", "Allow",
+];
+
 pub fn headers_strategy() -> impl Strategy<Value = Vec<(String, Bytes)>> {
+    let plausible = prop::sample::select(vec!["1", "on", "?1", "4g", "8", "0.5", "\"x86\"", "\"64\"", "dark", "reduce", "*/*", "gzip, deflate", "en", "keep-alive", "close", "no-cache", "100-continue", "chunked", "bytes", "nosniff", "*", "Origin", "max-age=0", "Wed, 21 Oct 2015 07:28:00 GMT", "\"abc\"", ""]).prop_map(|s| Bytes(s.as_bytes().to_vec()));
+    let vocab_name = (prop::sample::select(HEADER_VOCABULARY.to_vec()), 0u8..4).prop_map(|(n, c)| match c { 0 => n.to_lowercase(), 1 => n.to_uppercase(), _ => n.to_string() });
     let one = prop_oneof![
+        3 => (vocab_name.clone(), plausible),
+        1 => (vocab_name, hostile_text()),
         3 => Just(("Host".to_string(), Bytes(b"localhost".to_vec()))),
         2 => hostile_text().prop_map(|v| ("Host".to_string(), v)),
         4 => hostile_text().prop_map(|v| ("Origin".to_string(), v)),
